@@ -87,6 +87,53 @@ pub fn run() -> Value {
             guard("Element::elements_dfs_with_max_depth", format!("{p}"), || { let _ = x.elements_dfs_with_max_depth(p).count(); }, &mut panics, &mut n);
         }
     }
+    // iterators: polled again after they are exhausted, and while visited elements are being removed
+    {
+        let m3 = AutosarModel::new();
+        let _f3 = m3.create_file("c", AutosarVersion::LATEST).unwrap();
+        let pk3 = m3.root_element().create_sub_element(ElementName::ArPackages).unwrap();
+        for i in 0..4 {
+            let p = pk3.create_named_sub_element(ElementName::ArPackage, &format!("p{i}")).unwrap();
+            let _ = p.create_sub_element(ElementName::Category).and_then(|c| c.set_character_data("x"));
+            let _ = p.set_attribute_string(AttributeName::Uuid, "u");
+        }
+        let any = pk3.get_sub_element_at(0).unwrap();
+        guard("ElementsIterator::next after None", String::new(), || { let mut it = pk3.sub_elements(); while it.next().is_some() {} let _ = (it.next(), it.next()); }, &mut panics, &mut n);
+        guard("ElementContentIterator::next after None", String::new(), || { let mut it = any.content(); while it.next().is_some() {} let _ = (it.next(), it.next()); }, &mut panics, &mut n);
+        guard("AttributeIterator::next after None", String::new(), || { let mut it = any.attributes(); while it.next().is_some() {} let _ = (it.next(), it.next()); }, &mut panics, &mut n);
+        guard("ElementsDfsIterator::next after None", String::new(), || { let mut it = m3.elements_dfs(); while it.next().is_some() {} let _ = (it.next(), it.next()); }, &mut panics, &mut n);
+        guard("IdentifiablesIterator::next after None", String::new(), || { let mut it = m3.identifiable_elements(); while it.next().is_some() {} let _ = (it.next(), it.next()); }, &mut panics, &mut n);
+        guard("ArxmlFileIterator::next after None", String::new(), || { let mut it = m3.files(); while it.next().is_some() {} let _ = (it.next(), it.next()); }, &mut panics, &mut n);
+        guard("ElementsIterator::next while removing", String::new(), || {
+            let mut it = pk3.sub_elements();
+            while let Some(e) = it.next() {
+                let _ = pk3.remove_sub_element(e);
+            }
+            let _ = it.next();
+        }, &mut panics, &mut n);
+        guard("ElementsDfsIterator::next while removing", String::new(), || {
+            for i in 0..4 {
+                let _ = pk3.create_named_sub_element(ElementName::ArPackage, &format!("q{i}"));
+            }
+            let mut it = m3.elements_dfs();
+            let mut k = 0;
+            while let Some((_, e)) = it.next() {
+                k += 1;
+                if k % 2 == 0 {
+                    if let Ok(Some(p)) = e.parent() {
+                        let _ = p.remove_sub_element(e);
+                    }
+                }
+            }
+            let _ = it.next();
+        }, &mut panics, &mut n);
+        guard("ElementContentIterator::next while removing", String::new(), || {
+            let mut it = m3.root_element().content();
+            let _ = it.next();
+            let _ = m3.root_element().remove_sub_element(pk3.clone());
+            let _ = (it.next(), it.next());
+        }, &mut panics, &mut n);
+    }
     for f in [&f1, &f2] {
         guard("ArxmlFile::Debug", String::new(), || { let _ = format!("{f:?}"); }, &mut panics, &mut n);
         guard("ArxmlFile::serialize", String::new(), || { let _ = f.serialize(); }, &mut panics, &mut n);
